@@ -89,7 +89,7 @@ def check_batch(lines, cfg_key, conns, props, workdir, tag, keep=False):
     with open(of) as f:
         out = json.load(f)
     m = re.search(r"(\d+) states generated, (\d+) distinct states", pr.stdout)
-    stats = dict(wall=wall, lines=out["lines"], states=int(m.group(2)) if m else 0)
+    stats = dict(wall=wall, lines=out["lines"], states=int(m.group(2)) if m else 0, cnt=out.get("cnt", {}))
     if not keep:
         shutil.rmtree(os.path.join(workdir, "meta_" + tag), ignore_errors=True)
     return out["res"], stats
